@@ -99,7 +99,15 @@ pub struct AsyncOut {
     pub runs: Vec<u64>,
 }
 
+/// Scheduler point at the hand-over instants of the async dispatcher (hook in /repo): the job
+/// has run its last stage but not yet sent the state back; the caller has taken the state back
+/// but not yet spawned the next job.
+fn handover_point(_what: &'static str) {
+    detsim::yield_with_info(PH_HANDOVER);
+}
+
 pub fn run_async(b: &mut BuiltAsync, sc: &Scenario, spec: &StratSpec, seed: u64, replay: Option<Vec<u32>>) -> AsyncOut {
+    shred::verif_set_point(Some(handover_point));
     let ctx = b.ctx.clone();
     {
         let ad = b.ad.as_mut().unwrap();
@@ -200,6 +208,7 @@ pub fn run_async(b: &mut BuiltAsync, sc: &Scenario, spec: &StratSpec, seed: u64,
         detsim::yield_with_info(PH_CALLER);
     });
     ctx.dispatching.store(false, Ordering::SeqCst);
+    shred::verif_set_point(None);
     ctx.reap_pending();
     let events = std::mem::take(&mut *ctx.events.lock().unwrap());
     // a background job that panicked (real rayon would abort the process) never hands the
